@@ -153,6 +153,31 @@ class Module:
         self.constants = {}   # module-level NAME -> value node
         self._index()
 
+    def const(self, name, depth=0):
+        """Value node of a module-level constant, following a name that was
+        imported from (or aliased to) another module of the package."""
+        if name in self.constants:
+            v = self.constants[name]
+            if isinstance(v, (ast.Name, ast.Attribute)) and depth < 3:
+                tgt = self.resolve(dotted(v) or "") or ""
+                if tgt.startswith(PKG + ".") and "." in tgt:
+                    mn, cn = tgt.rsplit(".", 1)
+                    om = self.repo.modules.get(mn)
+                    if om is not None and om is not self:
+                        self.repo.consulted.add(mn)
+                        w = om.const(cn, depth + 1)
+                        if w is not None:
+                            return w
+            return v
+        tgt = self.imports.get(name)
+        if tgt and tgt.startswith(PKG + ".") and depth < 3:
+            mn, cn = tgt.rsplit(".", 1)
+            om = self.repo.modules.get(mn)
+            if om is not None and om is not self:
+                self.repo.consulted.add(mn)
+                return om.const(cn, depth + 1)
+        return None
+
     def _index(self):
         for st in self.tree.body:
             if isinstance(st, ast.Assign) and len(st.targets) == 1 \
@@ -723,6 +748,8 @@ def calls_in(node):
 
 
 def call_name(call):
+    if not isinstance(call, ast.Call):
+        return None
     return dotted(call.func)
 
 
@@ -902,6 +929,7 @@ def inline_view(fn, depth=2, keep=()):
     refactorings.  Helper locals that would collide with the caller's names
     are renamed."""
     counter = [0]
+    used_global = set()
 
     def used_names(node):
         return {n.id for n in ast.walk(node) if isinstance(n, ast.Name)} | \
@@ -944,6 +972,7 @@ def inline_view(fn, depth=2, keep=()):
                     return None
         counter[0] += 1
         tag = "__h%d" % counter[0]
+        caller_names = caller_names | used_global
         body = [_copy.deepcopy(s) for s in h.node.body
                 if not (isinstance(s, ast.Expr)
                         and isinstance(s.value, ast.Constant))]
@@ -959,6 +988,9 @@ def inline_view(fn, depth=2, keep=()):
                 and bound[name].id == name
             if name in caller_names and not same_arg:
                 rename[name] = name + tag
+        # names this inlining introduces are taken for later inlinings (the
+        # same helper inlined twice must not re-bind one local twice)
+        used_global.update(rename.get(n_, n_) for n_ in hlocals)
         pre = []
         for p in params:
             v = bound[p]
